@@ -51,6 +51,12 @@ class Tasks:
             self.sim.sp("next")
             if self.slow_at is not None and self.i == self.slow_at and self.slow_until is not None:
                 self.sim.other_thread_wait(self.slow_until)
+                sim = self.sim
+                if not self.slow_until() and sim.current is sim.cb and getattr(sim, "_main_waiting_lock", False) \
+                        and sim.lock_owner is sim.cb:
+                    # the producer is still not ready, and the caller cannot run: it waits for Parallel's lock, which
+                    # this (callback) thread holds while it sits here
+                    self.log.append(("consumer-blocked", self.call_no, self.i, len(sim.events), sim.n_tasks_finished))
             if self.fail_at is not None and self.i == self.fail_at:
                 self.log.append(("iter-raise", self.call_no, self.i))
                 raise IterError("iterator failed at %d" % self.i)
@@ -327,7 +333,8 @@ def run(cfg, sched):
                                   sim, call_no, c["n_tasks"], task, c.get("iter_fail_at"), out.iter_log,
                                   slow_at=c.get("slow_at"),
                                   iter_raises=c.get("iter_raises", False),
-                                  slow_until=(lambda: bool(p._aborting)) if c.get("slow_at") is not None else None)
+                                  slow_until=((lambda: False) if c.get("slow_kind") == "forever" else
+                                              (lambda: bool(p._aborting))) if c.get("slow_at") is not None else None)
                     rec["tasks"] = tasks
                     try:
                         if cfg.get("return_as", "list") == "list":
